@@ -378,7 +378,7 @@ def judge_copies(P, A, coloring, orig, ts, viol, acc):
                               (lost, {k: m0[k] for k in lost}, {k: m2.get(k) for k in lost})))
             # one-directional: the framework's own dense expansion, from the copy (its color arrays are caches
             # that have to be rebuilt for the copy)
-            if how != 'pickle' and (fwd2 is None) != (rev2 is None):
+            if how in ('file', 'file-twice', 'copy') and (fwd2 is None) != (rev2 is None):
                 direction, dat = ('fwd', fwd2) if fwd2 is not None else ('rev', rev2)
                 if direction == 'fwd':
                     comp = np.zeros((nr, len(dat[0])))
